@@ -1,12 +1,336 @@
-use crate::util::Report;
-use crate::Ctx;
-use serde_json::Value;
+//! C03 — reception overhead: decoding from K+h distinct symbols fails rarely.
+//! Statistical: observed failure frequency of the real decoder, judged by an exact one-sided
+//! binomial test against the advertised thresholds at alpha = 1e-9.
 
-pub fn run(_ctx: &Ctx, _rep: &mut Report) {
-    eprintln!("not implemented yet");
-    std::process::exit(2);
+use crate::codec::{block_cfg, make_data, DataClass};
+use crate::reference as rf;
+use crate::util::{mix, simple_failure, Failure, Report, SplitMix, Stats, SubOutcome};
+use crate::Ctx;
+use raptorq::{EncodingPacket, SourceBlockDecoder, SourceBlockEncoder};
+use rayon::prelude::*;
+use serde_json::{json, Value};
+use std::collections::BTreeSet;
+use std::time::Instant;
+
+pub const THRESHOLDS: [f64; 3] = [1e-2, 1e-4, 1e-5];
+pub const ALPHA: f64 = 1e-9;
+
+fn ln_gamma(x: f64) -> f64 {
+    // Lanczos approximation (g = 7, n = 9)
+    const G: [f64; 9] = [
+        0.99999999999980993,
+        676.5203681218851,
+        -1259.1392167224028,
+        771.32342877765313,
+        -176.61502916214059,
+        12.507343278686905,
+        -0.13857109526572012,
+        9.9843695780195716e-6,
+        1.5056327351493116e-7,
+    ];
+    if x < 0.5 {
+        return (std::f64::consts::PI / (std::f64::consts::PI * x).sin()).ln() - ln_gamma(1.0 - x);
+    }
+    let x = x - 1.0;
+    let mut a = G[0];
+    let t = x + 7.5;
+    for (i, g) in G.iter().enumerate().skip(1) {
+        a += g / (x + i as f64);
+    }
+    0.5 * (2.0 * std::f64::consts::PI).ln() + (x + 0.5) * t.ln() - t + a.ln()
 }
 
-pub fn replay(_sub: &str, _case: &Value) -> Result<(), String> {
-    Err("not implemented".into())
+/// P[X >= x] for X ~ Binomial(n, p), summed in log space from the upper tail's largest terms.
+pub fn binom_tail_ge(n: u64, p: f64, x: u64) -> f64 {
+    if x == 0 {
+        return 1.0;
+    }
+    if x > n {
+        return 0.0;
+    }
+    let ln_p = p.ln();
+    let ln_q = (1.0 - p).ln_1p_safe();
+    let ln_term = |k: u64| -> f64 {
+        ln_gamma(n as f64 + 1.0) - ln_gamma(k as f64 + 1.0) - ln_gamma((n - k) as f64 + 1.0) + k as f64 * ln_p + (n - k) as f64 * ln_q
+    };
+    let mut sum = 0.0f64;
+    let mut k = x;
+    let first = ln_term(k);
+    loop {
+        let t = (ln_term(k) - first).exp();
+        sum += t;
+        if k == n || (t < 1e-18 && k as f64 > n as f64 * p) {
+            break;
+        }
+        k += 1;
+    }
+    (first + sum.ln()).exp().min(1.0)
+}
+
+trait Ln1pSafe {
+    fn ln_1p_safe(self) -> f64;
+}
+impl Ln1pSafe for f64 {
+    // ln(self) where self = 1 - p, computed as ln_1p(-p) for accuracy
+    fn ln_1p_safe(self) -> f64 {
+        (self - 1.0).ln_1p()
+    }
+}
+
+struct Fixture {
+    k: u32,
+    pr: rf::Params,
+    data: Vec<u8>,
+    enc: SourceBlockEncoder,
+    source: Vec<EncodingPacket>,
+}
+
+fn fixture(k: u32) -> Fixture {
+    let data = make_data(DataClass::Random, 0xC03 + k as u64, k as usize);
+    let cfg = block_cfg(k as usize, 1);
+    let enc = SourceBlockEncoder::new(0, &cfg, &data);
+    let source = enc.source_packets();
+    Fixture { k, pr: rf::params(k), data, enc, source }
+}
+
+fn k_mixture() -> Vec<u32> {
+    let mut ks: Vec<u32> = (1..=40).collect();
+    ks.extend(rf::tables().t2.iter().take(30).map(|r| r.0));
+    ks.extend([100u32, 250, 500]);
+    ks.sort_unstable();
+    ks.dedup();
+    ks
+}
+
+/// The ESI set of trial (k, h, stratum, trial seed): `s` source symbols + uniform repair ESIs.
+fn trial_set(k: u32, h: u32, stratum: u8, seed: u64) -> Vec<u32> {
+    let mut rng = SplitMix::new(seed);
+    let s = if stratum == 0 { 0 } else { rng.below(k as u64) as u32 }; // 0..K-1 source symbols
+    let mut set = BTreeSet::new();
+    if s > 0 {
+        let mut src: Vec<u32> = (0..k).collect();
+        rng.shuffle(&mut src);
+        set.extend(src.into_iter().take(s as usize));
+    }
+    while (set.len() as u32) < k + h {
+        set.insert(k + rng.below((1u64 << 24) - k as u64) as u32);
+    }
+    set.into_iter().collect()
+}
+
+fn run_trial(fx: &Fixture, esis: &[u32]) -> Result<bool, String> {
+    let k = fx.k;
+    let cfg = block_cfg(k as usize, 1);
+    let mut dec = SourceBlockDecoder::new(0, &cfg, k as u64);
+    let pkts: Vec<EncodingPacket> = esis
+        .iter()
+        .map(|&e| if e < k { fx.source[e as usize].clone() } else { fx.enc.repair_packets(e - k, 1).pop().unwrap() })
+        .collect();
+    match dec.decode(pkts) {
+        Some(b) if b == fx.data => Ok(true),
+        Some(_) => Err(format!("K={k}: decoder returned wrong bytes for {} symbols", esis.len())),
+        None => Ok(false),
+    }
+}
+
+#[derive(Default, Clone, Debug)]
+struct Cell {
+    trials: u64,
+    failures: u64,
+    failures_full_rank: u64,
+    failing_sets: Vec<(u32, u32, u8, u64)>,
+}
+
+pub fn run(ctx: &Ctx, rep: &mut Report) {
+    rep.rule = "trials: K from the fixed mixture {1..=40} U {30 smallest K'} U {100, 250, 500}; for h in {0,1,2} a set of exactly K+h distinct ESIs: stratum 'uniform' = all repair ESIs uniform without replacement in K..2^24, stratum 'mixed' = a uniformly random number (0..K-1) of source symbols plus uniform repair ESIs; the real SourceBlockDecoder is run on the whole set and `None` is counted. Decision: for each h (pooled, and per stratum, and per K-group) an exact one-sided binomial test rejects 'failure probability <= advertised threshold' (1e-2, 1e-4, 1e-5) at alpha = 1e-9; measured rates and their ratios are reported but are not alarm conditions. Every trial is non-trivial (>= K symbols with a source symbol missing); distinct by (K, h, stratum, trial seed); every counted failure is cross-checked with the rank oracle.".into();
+    rep.assumptions.push("statistical statement: degradations smaller than the gap between the true rate and the threshold are invisible at these sample sizes; false-alarm probability < 1e-9 per test on a tree with failure probability at or below the threshold".into());
+    let started = Instant::now();
+    let ks = k_mixture();
+    let scale = ctx.tier.pick(1u64, 20);
+    let budget = [300_000u64 * scale, 1_500_000 * scale, 1_500_000 * scale];
+    let fixtures: Vec<Fixture> = ks.par_iter().map(|&k| fixture(k)).collect();
+    // trials are spread evenly over (K, stratum); larger K get fewer (cost grows ~K^2)
+    let weight = |k: u32| -> f64 { 1.0 / (1.0 + (k as f64 / 40.0).powi(2)) };
+    let wsum: f64 = ks.iter().map(|&k| weight(k)).sum();
+    let mut work: Vec<(usize, u32, u8, u64, u64)> = vec![]; // (fixture idx, h, stratum, first trial, count)
+    for h in 0..3u32 {
+        for (i, &k) in ks.iter().enumerate() {
+            let n = ((budget[h as usize] as f64) * weight(k) / wsum / 2.0).ceil() as u64;
+            for stratum in 0..2u8 {
+                // chunk for load balancing
+                let mut done = 0;
+                while done < n {
+                    let c = (n - done).min(4000);
+                    work.push((i, h, stratum, done, c));
+                    done += c;
+                }
+            }
+        }
+    }
+    let seed = ctx.seed;
+    let results: Vec<(usize, u32, u8, Cell, Option<String>)> = work
+        .par_iter()
+        .map(|&(i, h, stratum, first, count)| {
+            let fx = &fixtures[i];
+            let mut cell = Cell::default();
+            let mut err = None;
+            for tix in first..first + count {
+                let tseed = mix(mix(mix(seed, 0xC03), ((fx.k as u64) << 8) | ((h as u64) << 4) | stratum as u64), tix);
+                let esis = trial_set(fx.k, h, stratum, tseed);
+                cell.trials += 1;
+                match crate::util::catch(|| run_trial(fx, &esis)) {
+                    Ok(Ok(true)) => {}
+                    Ok(Ok(false)) => {
+                        cell.failures += 1;
+                        // cross-check with the rank oracle
+                        let mut isis: Vec<u32> = (fx.k..fx.pr.kp).collect();
+                        isis.extend(esis.iter().map(|&e| rf::esi_to_isi(&fx.pr, e)));
+                        if rf::rank_structured(&fx.pr, &isis) == fx.pr.l as usize {
+                            cell.failures_full_rank += 1;
+                        }
+                        if cell.failing_sets.len() < 20 {
+                            cell.failing_sets.push((fx.k, h, stratum, tseed));
+                        }
+                    }
+                    Ok(Err(m)) => err = Some(m),
+                    Err(p) => err = Some(format!("K={}: panic: {p}", fx.k)),
+                }
+            }
+            (i, h, stratum, cell, err)
+        })
+        .collect();
+
+    // aggregate
+    let mut per: std::collections::BTreeMap<(u32, u8, u32), Cell> = Default::default(); // (h, stratum, k)
+    let mut hard_error = None;
+    for (i, h, stratum, cell, err) in results {
+        let e = per.entry((h, stratum, fixtures[i].k)).or_default();
+        e.trials += cell.trials;
+        e.failures += cell.failures;
+        e.failures_full_rank += cell.failures_full_rank;
+        for f in cell.failing_sets {
+            if e.failing_sets.len() < 20 {
+                e.failing_sets.push(f);
+            }
+        }
+        if err.is_some() && hard_error.is_none() {
+            hard_error = err;
+        }
+    }
+    let group_of = |k: u32| -> &'static str {
+        match k {
+            0..=10 => "K<=10",
+            11..=20 => "K 11..20",
+            21..=40 => "K 21..40",
+            41..=99 => "K 41..99",
+            _ => "K>=100",
+        }
+    };
+    let mut st = Stats::new();
+    let mut failures: Vec<Failure> = vec![];
+    let mut table = vec![];
+    let mut rates = [0f64; 3];
+    for h in 0..3u32 {
+        let mut groups: std::collections::BTreeMap<String, (u64, u64, Vec<(u32, u32, u8, u64)>)> = Default::default();
+        let mut full_rank_nones = 0u64;
+        for ((hh, stratum, k), cell) in per.iter() {
+            if *hh != h {
+                continue;
+            }
+            full_rank_nones += cell.failures_full_rank;
+            for name in ["pooled".to_string(), format!("stratum:{}", if *stratum == 0 { "uniform" } else { "mixed" }), format!("group:{}", group_of(*k))] {
+                let g = groups.entry(name).or_default();
+                g.0 += cell.trials;
+                g.1 += cell.failures;
+                for f in &cell.failing_sets {
+                    if g.2.len() < 12 {
+                        g.2.push(*f);
+                    }
+                }
+            }
+        }
+        for (name, (n, x, sets)) in groups.iter() {
+            let p = THRESHOLDS[h as usize];
+            let tail = binom_tail_ge(*n, p, *x);
+            let rate = *x as f64 / *n as f64;
+            if name == "pooled" {
+                rates[h as usize] = rate;
+                st.evals(*n);
+                st.nt_enumerated(*n);
+                st.class_n(&format!("h={h}: trials"), *n);
+                st.class_n(&format!("h={h}: decode failures"), *x);
+                st.class_n(&format!("h={h}: failures on full-rank sets (would be C02 violations)"), full_rank_nones);
+            }
+            table.push(json!({"h": h, "cell": name, "trials": n, "failures": x, "rate": rate, "threshold": p, "binomial_tail_P[X>=x|p=threshold]": tail}));
+            if tail < ALPHA {
+                failures.push(simple_failure(
+                    "overhead",
+                    format!("h={h} ({name}): {x} failures in {n} trials (rate {rate:.3e}) is incompatible with the advertised bound {p:.0e} (exact binomial tail {tail:.3e} < {ALPHA:e})"),
+                    format!("overhead:h={h}:{name}"),
+                    json!({"seed": seed, "h": h, "cell": name, "trials": n, "failures": x, "failing_sets": sets.iter().map(|f| json!({"k": f.0, "h": f.1, "stratum": f.2, "tseed": f.3})).collect::<Vec<_>>()}),
+                ));
+            }
+        }
+    }
+    if let Some(m) = hard_error {
+        failures.push(simple_failure("overhead", m, "overhead:wrong-bytes-or-panic".into(), json!({"seed": seed})));
+    }
+    // samples: a few actual trial sets
+    for (h, k) in [(0u32, 10u32), (1, 26), (2, 100)] {
+        let tseed = mix(seed, (k as u64) << 4 | h as u64);
+        let s = trial_set(k, h, 1, tseed);
+        st.sample(|| json!({"K": k, "h": h, "stratum": "mixed", "esis_first12": &s[..s.len().min(12)], "symbols": s.len()}));
+    }
+    failures.sort_by_key(|f| f.signature.len());
+    failures.truncate(1);
+    rep.extra.insert("rates".into(), json!({"h0": rates[0], "h1": rates[1], "h2": rates[2], "ratio_h0_h1": if rates[1] > 0.0 { rates[0] / rates[1] } else { f64::NAN }, "ratio_h1_h2": if rates[2] > 0.0 { rates[1] / rates[2] } else { f64::NAN }}));
+    rep.extra.insert("cells".into(), json!(table));
+    rep.absorb("overhead", SubOutcome { stats: st, failures, wall_s: started.elapsed().as_secs_f64() });
+}
+
+/// Replay: re-measure the listed failing sets (each must still be a decode failure to support
+/// the count) and re-evaluate the decision on the recorded counts.
+pub fn replay(_sub: &str, case: &Value) -> Result<(), String> {
+    let h = case["h"].as_u64().unwrap_or(0) as usize;
+    let n = case["trials"].as_u64().unwrap_or(0);
+    let mut still = 0u64;
+    let mut total = 0u64;
+    if let Some(sets) = case["failing_sets"].as_array() {
+        for s in sets {
+            let k = s["k"].as_u64().unwrap() as u32;
+            let hh = s["h"].as_u64().unwrap() as u32;
+            let stratum = s["stratum"].as_u64().unwrap() as u8;
+            let tseed = s["tseed"].as_u64().unwrap();
+            let fx = fixture(k);
+            total += 1;
+            if let Ok(false) = run_trial(&fx, &trial_set(k, hh, stratum, tseed)) {
+                still += 1;
+            }
+        }
+    }
+    // re-run the cell's decision with a fresh measurement of equal size is the check itself;
+    // here: the recorded failing sets must fail again, and the recorded counts must reject
+    let x = case["failures"].as_u64().unwrap_or(0);
+    let tail = binom_tail_ge(n.max(1), THRESHOLDS[h.min(2)], x);
+    if total > 0 && still == total && tail < ALPHA {
+        Err(format!("{still}/{total} recorded failing sets still fail to decode; recorded counts {x}/{n} reject the bound (tail {tail:.3e})"))
+    } else {
+        Ok(())
+    }
+}
+
+#[cfg(test)]
+mod tests {
+    use super::*;
+    #[test]
+    fn binomial_tail_sanity() {
+        // exact small case: n=10, p=0.5, P[X>=8] = (45+10+1)/1024
+        let t = binom_tail_ge(10, 0.5, 8);
+        assert!((t - 56.0 / 1024.0).abs() < 1e-12, "{t}");
+        // Poisson-ish: n=1e6, p=1e-5 (mean 10): P[X>=40] ~ 7.3e-13 (tiny), P[X>=10] ~ 0.54
+        assert!(binom_tail_ge(1_000_000, 1e-5, 40) < 1e-11);
+        let t = binom_tail_ge(1_000_000, 1e-5, 10);
+        assert!(t > 0.5 && t < 0.6, "{t}");
+        assert_eq!(binom_tail_ge(100, 0.1, 0), 1.0);
+    }
 }
